@@ -321,7 +321,7 @@ func (c *checker) badPush(i int) {
 	repo := fmt.Sprintf("bad/r%d", i%20)
 	content := []byte(fmt.Sprintf("bad push content %d %d %s", i, rng.IntN(1<<30), strings.Repeat("z", rng.IntN(40))))
 	other := []byte(fmt.Sprintf("other bytes %d %d", i, rng.IntN(1<<30)))
-	kinds := []string{"digest-of-other-bytes", "size+1", "size-1", "size-0-with-content", "truncated-content", "chunked-wrong-commit-digest"}
+	kinds := []string{"digest-of-other-bytes", "size+1", "size-1", "size-0-with-content", "truncated-content", "chunked-wrong-commit-digest", "empty-body-declared-nonempty", "empty-body-empty-digest-size-5"}
 	if !isHTTP(c.kind) {
 		kinds = append(kinds, "extended-content")
 	}
@@ -343,6 +343,13 @@ func (c *checker) badPush(i int) {
 		body = content[:len(content)/2]
 	case "extended-content":
 		body = append(append([]byte(nil), content...), "EXTRA"...)
+	case "empty-body-declared-nonempty":
+		body = []byte{} // descriptor of the real content, but nothing is sent
+	case "empty-body-empty-digest-size-5":
+		body = []byte{}
+		d.Digest = ociregistry.Digest(model.EmptyDigest)
+		d.Size = 5
+		declared = ""
 	}
 	w := map[string]any{"stack": c.kind, "bad_push": kind, "declared_digest": declared, "declared_size": d.Size, "body_len": len(body)}
 	run.Eval(1)
@@ -369,7 +376,15 @@ func (c *checker) badPush(i int) {
 	if perr == nil {
 		run.Violation(fmt.Sprintf("bad-push-accepted/%s/%s", c.kind, kind), fmt.Sprintf("a push with %s was accepted", kind), w)
 	}
-	for _, dg := range []string{declared, model.Digest(body)} {
+	after := []string{declared, model.Digest(body)}
+	if len(body) == 0 {
+		// the empty blob may legitimately exist in this repository from an earlier valid push
+		after = []string{declared}
+	}
+	for _, dg := range after {
+		if dg == "" {
+			continue
+		}
 		if _, err := c.reg.ResolveBlob(bg, repo, ociregistry.Digest(dg)); err == nil {
 			run.Violation(fmt.Sprintf("bad-push-left-content/%s/%s", c.kind, kind), fmt.Sprintf("after a refused push (%s) ResolveBlob(%s) succeeds", kind, dg), w)
 		}
